@@ -49,7 +49,7 @@ TIERS = {
         scen("exhaustive/1-section/full", 1, FULL, Dirs=ALL_DIRS, Setups=ALL_SETUPS, Pres=("none", "audio_video"),
              Compats=("Standard",), Muxes=(True,), Negs=("first", "subsequent")),
         scen("exhaustive/1-section/compat", 1, SMALL, Pres=("none", "audio", "dc"), Negs=("first", "subsequent")),
-        scen("exhaustive/2-sections", 2, SMALL, Compats=("Standard",), Pres=("none", "audio_video")),
+        scen("exhaustive/2-sections", 2, SMALL, Compats=("Standard",), Pres=("none",)),
         scen("random/1-6-sections", 6, FULL, sim=300000, Dirs=ALL_DIRS, Setups=ALL_SETUPS,
              BundleModes=("none", "all", "first2")),
     ],
